@@ -38,7 +38,8 @@ SPEC = {
     "harness": "bootstrap",
     "lean_targets": ["PdModel.Props.C20", "Audit.C20"],
     "audit": "Audit/C20.lean",
-    "lean_files": ["PdModel/Model/Bootstrap.lean", "PdModel/Lemmas/Bootstrap.lean", "PdModel/Props/C20.lean",
+    "lean_files": ["PdModel/Model/Bootstrap.lean", "PdModel/Lemmas/Bootstrap.lean",
+                   "PdModel/Lemmas/BootstrapEvents.lean", "PdModel/Props/C20.lean",
                    "PdModel/Spec/C20.lean", "PdModel/Driver/Bootstrap.lean"],
     "gen": {
         "quick": {"args": ["-n", "30", "-len", "24", "-streams", "4"], "streams": 4},
@@ -61,8 +62,11 @@ SPEC = {
                   "commit (the CreateRevision(root)=0 transaction with fault flag) / start (cluster.Start) / lead "
                   "(leader change: stop and create raft cluster) micro-steps over the bootstrap keys of etcd; initId = "
                   "the create-if-absent transaction of initOrGetClusterID",
-    "level_text": "Theorem bootstrap_exactly_once (Lean 4, kernel-checked, no bound on members, requests, interleaving or "
-                  "leader changes): in every reachable state at most one bootstrap transaction has succeeded; before it "
+    "level_text": "Theorem C20_holds (Lean 4, kernel-checked, no bound on members, requests, interleaving, leader changes or "
+                  "transaction faults): the observable events of EVERY model history (requests issued, answers, stored "
+                  "records after every step) satisfy Spec.C20.Holds - at most one request accepted, it was well-formed and "
+                  "for this cluster and the records are its own from then on, records never change, they come from one "
+                  "never-refused well-formed request. Theorem bootstrap_exactly_once (same quantifiers): in every reachable state at most one bootstrap transaction has succeeded; before it "
                   "nothing is stored and nothing accepted; after it the stored cluster meta, store and region are exactly "
                   "those of that request's well-formed payload and it is the only request answered ok "
                   "(at_most_one_ok_answer over the answers of a history); "
@@ -77,8 +81,8 @@ SPEC = {
     "level_note": "Trusted: Lean kernel + 3 standard axioms; hand-written model tied by correspondence (all commit orders "
                   "of <= 3 racing requests, statistical beyond); the harness and its transaction gate; the model merges "
                   "transaction and raft-cluster start of one request into consecutive steps when replaying (the theorem "
-                  "covers the split); etcd executes a transaction atomically. The theorems are about model states; the "
-                  "event-level specification is applied to implementation traces by the monitor, not proved of the model.",
+                  "covers the split); etcd executes a transaction atomically. The same decidable Spec.C20.Holds that is "
+                  "proved of every model history (C20_holds) is what the monitor evaluates on implementation traces.",
     "technique": "Lean 4 inductive invariant over micro-step histories + differential correspondence with gated "
                  "transactions + decidable specification as monitor",
     "assumptions": [
